@@ -2,6 +2,7 @@ package engsync
 
 import (
 	"context"
+	"errors"
 	"fmt"
 	"os"
 	"sort"
@@ -29,7 +30,12 @@ type recorder struct {
 	mu    sync.Mutex
 	puts  []putRec
 	lasts int // Last() calls seen (Run asks for the last beacon when it takes a request)
+	// fault injection: the Put of this round fails once (0: never)
+	failRound uint64
+	failed    bool
 }
+
+var errInjected = errors.New("injected: transient failure of the underlying store")
 
 func (r *recorder) Last(ctx context.Context) (*common.Beacon, error) {
 	r.mu.Lock()
@@ -50,7 +56,18 @@ func (r *recorder) Put(ctx context.Context, b *common.Beacon) error {
 		head = l.Round
 	}
 	rec := putRec{b: cp(b), headPrev: head}
-	err := r.Store.Put(ctx, b)
+	r.mu.Lock()
+	inject := r.failRound != 0 && b.Round == r.failRound && !r.failed
+	if inject {
+		r.failed = true
+	}
+	r.mu.Unlock()
+	var err error
+	if inject {
+		err = errInjected // nothing is written
+	} else {
+		err = r.Store.Put(ctx, b)
+	}
 	rec.err = err
 	r.mu.Lock()
 	r.puts = append(r.puts, rec)
